@@ -125,6 +125,17 @@ def runCase (s : St) : String :=
   let fails := judge { fx := s.fx, flt := flt, os := s.os, orig := s.orig, ent0 := e0, wrote1 := s.wrote1, after1 := s.after1,
                        ent1 := e1, after2 := s.after2, orc := orc, sexps := sexps }
   let j := if fails.isEmpty then "ok" else "FAIL:" ++ ",".intercalate fails
+  let jin : JudgeIn := { fx := s.fx, flt := flt, os := s.os, orig := s.orig, ent0 := e0, wrote1 := s.wrote1, after1 := s.after1, ent1 := e1, after2 := s.after2, orc := orc, sexps := sexps }
+  let canonF := canonB jin
+  let simplesF := simplesB jin
+  -- near-delimiter lines: a body line of an input or expectation of the ORIGINAL file that starts with a run of
+  -- >= 3 `-` or `=` (whatever follows), and those among them that are NOT delimiters of this file
+  let fs0 := firstSuffix (splitIncl s.orig)
+  let bodyLines := e0.foldr (fun e acc => splitIncl (e.input ++ ['\n']) ++ acc) []
+  let nearAll := (bodyLines.filter fun l => (parseDelimLine l '-').isSome || (parseDelimLine l '=').isSome).length
+  let nearWs := (bodyLines.filter fun l => match parseDelimLine l '-' with
+      | some (_, sf) => !suffixMatches fs0 sf && (match fs0 with | none => (trim sf).isEmpty | some f => trim sf == trim f)
+      | none => false).length
   -- non-triviality data, measured on the real entries
   let attrs := (e0.filter fun e => !e.attrsStr.isEmpty).length
   let wrong := (e0.filter fun e => !(entryPasses orc e)).length
@@ -139,7 +150,7 @@ def runCase (s : St) : String :=
   let shape := (e0.filter entryShapeB).length
   let expect := (e0.filter entryExpectB).length
   let model := if c1 == "ok" then "" else s!" model1={hexOf u1}"
-  s!"{s.id} parse0={p0} parse1={p1} upd1={c1} upd2={c2} res1={r1} res2={r2} bupd1={bu1} bupd2={bu2} bjudge={bj} dir={if s.dir then 1 else 0} judge={j} n0={e0.length} n1={e1.length} attrs={attrs} wrong={wrong} delimlike={delimLike} suffixed={if (firstSuffix (splitIncl s.orig)).isSome then 1 else 0} wrote={if s.wrote1 then 1 else 0} filter={s.filter} carried={(e0.filter fun e => !flt e.name).length} carriedcst={(e0.filter fun e => !flt e.name && e.attrs.cst).length} wf={if wf then 1 else 0} stripok={stripok} canon={canon} shape={shape} expectok={expect} acts={s.acts.length} actok={actok} sx={sexps.length} sxclass={sxIn} quoted={if quoted then 1 else 0} crlf={if s.orig.contains '\r' then 1 else 0} bytes={s.orig.length}{model}"
+  s!"{s.id} parse0={p0} parse1={p1} upd1={c1} upd2={c2} res1={r1} res2={r2} bupd1={bu1} bupd2={bu2} bjudge={bj} dir={if s.dir then 1 else 0} judge={j} n0={e0.length} n1={e1.length} attrs={attrs} wrong={wrong} delimlike={delimLike} suffixed={if (firstSuffix (splitIncl s.orig)).isSome then 1 else 0} wrote={if s.wrote1 then 1 else 0} filter={s.filter} carried={(e0.filter fun e => !flt e.name).length} carriedcst={(e0.filter fun e => !flt e.name && e.attrs.cst).length} wf={if wf then 1 else 0} canonf={if canonF then 1 else 0} simples={if simplesF then 1 else 0} nearall={nearAll} nearws={nearWs} stripok={stripok} canon={canon} shape={shape} expectok={expect} acts={s.acts.length} actok={actok} sx={sexps.length} sxclass={sxIn} quoted={if quoted then 1 else 0} crlf={if s.orig.contains '\r' then 1 else 0} bytes={s.orig.length}{model}"
 
 def step (s : St) (line : String) : IO St := do
   match line.splitOn " " with
